@@ -36,7 +36,8 @@ RULE = (
     "row transformers), values tagged 100 i + 10 c + t + 0.5.  Per transformer the full product "
     "with its option grid: padder pad_length None/max/max+1/max+3/(max-1 rejected) x fill 0/-1/NaN x "
     "transform panel same/other; truncation None, lower 1..min, every 0<=lower<upper<=min; "
-    "interpolation length 1-10; PAA / SlopeTransformer / IntervalSegmenter(int) number of intervals "
+    "interpolation length 1-10; PAA and SlopeTransformer for every (series length <= 30 quick / 40 "
+    "thorough, number of intervals) pair and both value families; PAA / SlopeTransformer / IntervalSegmenter(int) number of intervals "
     "1..L(+1); IntervalSegmenter(array) every list of 1-2 intervals 0<=s<e<=L (L<=5; singles for all "
     "L); SlidingWindowSegmenter window 1..L+1; RandomIntervalSegmenter / RandomIntervalFeatureExtractor "
     "n_intervals 1..L, sqrt, log, random, 0.5 x random_state 0-9 with the fitted intervals_ read "
@@ -187,6 +188,16 @@ def gen_cases(tier, seed):
                 for f in (0, 1):
                     yield dict(kind="paa", lens=lens, cell=cell, fam=f, n_int=k)
                     yield dict(kind="slope", lens=lens, cell=cell, fam=f, n_int=k)
+    # ---- longer series: every (length, number of intervals) pair up to 40 / 30 points for the
+    # transformers whose frame arithmetic is fractional (2 instances, 1 column)
+    for Lx in range(2, 41 if tier != "quick" else 31):
+        for k in range(1, Lx + 1):
+            for f in (0, 1):
+                yield dict(kind="paa", lens=[[Lx], [Lx]], cell=cells[(Lx + k + seed) % 2],
+                           fam=f, n_int=k)
+                if k <= Lx // 2:
+                    yield dict(kind="slope", lens=[[Lx], [Lx]], cell=cells[(Lx + k + seed) % 2],
+                               fam=f, n_int=k)
     # ---- univariate panels: segmenters and interval features
     for lens in _eq_shapes(tier, cols=(1,)):
         L = lens[0][0]
